@@ -1118,7 +1118,7 @@ def run_reader(ctx, cases, scases, rcases):
     """streams and evaluators for the csv.reader / load_native_csv / load_simple_csv models"""
     from harness.props import c13
 
-    n = ctx.budget(2500, 60000)
+    n = ctx.budget(2500, 40000)
 
     # ---- B5: csv.reader model: written lines, soup (one line, several lines, physical lines of a text)
     rng = ctx.rng("reader")
